@@ -57,11 +57,12 @@ func TestC05(t *testing.T) {
 		}
 	}
 	n, configs, nontrivial := 0, 0, 0
+	idDomain := []uint16{0, 1, 2, 3, 4}
 	check := func(cfg topics.PredefinedTopics) {
 		configs++
 		shadow := false
 		for _, c := range clients {
-			for id := uint16(0); id <= 4; id++ {
+			for _, id := range idDomain {
 				n++
 				got, ok := cfg.GetTopicName(c, id)
 				want, wok := refName(cfg, c, id)
@@ -71,7 +72,7 @@ func TestC05(t *testing.T) {
 			}
 			for _, name := range names {
 				exists := false
-				for id := uint16(0); id <= 4; id++ {
+				for _, id := range idDomain {
 					if w, ok := refName(cfg, c, id); ok && w == name {
 						exists = true
 					}
@@ -121,6 +122,24 @@ func TestC05(t *testing.T) {
 			}
 		}
 	}
+	// the ends of the 16-bit id range: all maps {c1,*} x id{0,1,0xFFFD,0xFFFE,0xFFFF} -> {absent,x,y}
+	idDomain = []uint16{0, 1, 2, 0xFFFD, 0xFFFE, 0xFFFF}
+	ends := []uint16{0, 1, 0xFFFD, 0xFFFE, 0xFFFF}
+	for code := 0; code < 59049; code++ {
+		cfg := topics.PredefinedTopics{}
+		c := code
+		for _, cl := range []string{"c1", "*"} {
+			for _, id := range ends {
+				v := c % 3
+				c /= 3
+				if v != 0 {
+					cfg.Add(cl, vals[v+1], id)
+				}
+			}
+		}
+		check(cfg)
+	}
+	idDomain = []uint16{0, 1, 2, 3, 4}
 	// the repository's own example file, through the real loader
 	if cfg, err := topics.ReadPredefinedTopicsFile("/repo/topics/testdata/topics.yaml"); err == nil {
 		names = append(names, "device/any/data", "device/any/config", "device/any/bcast", "device/000001/data")
@@ -142,7 +161,7 @@ func TestC05(t *testing.T) {
 		"distinct_nontrivial": nontrivial,
 		"configurations":      configs,
 		"exhaustive":          true,
-		"rule":                "all 4096 maps {c1,*} x id{1,2,3} -> {absent,\"\",x,y} (tables without entries both missing and empty) plus topics/testdata/topics.yaml; client ids {c1,c2,*}; every id 0..4 and every name {\"\",x,y,q}; GetTopicName against the precedence reference, every GetTopicID result must read back as the same name, and an id must be found whenever one resolves to the name; non-trivial = configurations with entries in both tables",
+		"rule":                "all 4096 maps {c1,*} x id{1,2,3} -> {absent,\"\",x,y} (tables without entries both missing and empty), all 59049 maps {c1,*} x id{0,1,0xFFFD,0xFFFE,0xFFFF} -> {absent,x,y} (the ends of the id range) plus topics/testdata/topics.yaml; client ids {c1,c2,*}; every id of the domain (0..4, resp. 0,1,2,0xFFFD..0xFFFF) and every name {\"\",x,y,q}; GetTopicName against the precedence reference, every GetTopicID result must read back as the same name, and an id must be found whenever one resolves to the name; non-trivial = configurations with entries in both tables",
 		"samples":             []string{"c1:{1:\"x\"} *:{1:\"y\" 2:\"x\"}", "topics/testdata/topics.yaml"},
 	}
 	rep.Assumptions = []string{"Go map iteration order is not controllable: lookups by name are repeated 8 times per query"}
